@@ -261,6 +261,6 @@ func init() {
 			}
 			out = append(out, s)
 		}
-		return out
+		return append(out, c05Scripted(tier)...)
 	}
 }
